@@ -303,4 +303,8 @@ func verifH_C07_ShardedMapOf_keyed() { verifC07(2, false, verifOpsKeyed) }
 func verifH_C07_ShardedMapOf_batch() { verifC07(2, false, verifOpsBatch) }
 func verifH_C07_ShardedMapOf_ls()    { verifC07(2, false, verifOpsLS) }
 func verifH_C09_ShardedMap_keyed()   { verifC07(0, true, verifOpsKeyed) }
+func verifH_C09_ShardedMap_batch()   { verifC07(0, true, verifOpsBatch) }
+func verifH_C09_ShardedMap_ls()      { verifC07(0, true, verifOpsLS) }
+func verifH_C09_ShardedMapOf_batch() { verifC07(2, true, verifOpsBatch) }
+func verifH_C09_ShardedMapOf_ls()    { verifC07(2, true, verifOpsLS) }
 func verifH_C09_ShardedMapOf_keyed() { verifC07(2, true, verifOpsKeyed) }
